@@ -222,7 +222,7 @@ def eval_program(arg) -> dict:
     # (e) another shell of the same prefix in one TU, and another prefix in one program
     other_suffix = enc.get('suffix', 'Shell') + 'Two'
     same = dict(enc, suffix=other_suffix)
-    alt_prefix = ['Alt'] if enc.get('prefix') != ['Alt'] else ['Alt2']
+    alt_prefix = ['QZAlt']
     alt = dict(enc, suffix=enc.get('suffix', 'Shell') + 'Alt', prefix=alt_prefix)
     fc = shellbuild.parse_doc(case['doc'])
     try:
